@@ -182,6 +182,26 @@ def fields(line):
     return d
 
 
+def cfg_text(c):
+    """option flags of harness/h_wal.c mkopts in words"""
+    return "%s log buffer, checksum checking %s" % ("4 KB" if c & 2 else "default (8 MB)", "on" if c & 1 else "off")
+
+
+def cross_configs(crc):
+    """options for a recovering process that differ from the writer's in the log-buffer size (bit 2), in checksum
+    checking (bit 1), or both; bit 4 (no trim on close) is kept"""
+    return [crc ^ 2, crc ^ 1, crc ^ 3]
+
+
+def cross_kind(wcrc, rcrc):
+    out = []
+    if (wcrc ^ rcrc) & 2:
+        out.append("buffer_small_recovers_default" if rcrc & 2 else "buffer_default_recovers_small")
+    if (wcrc ^ rcrc) & 1:
+        out.append("checksums_on_recovers_off" if rcrc & 1 else "checksums_off_recovers_on")
+    return out
+
+
 def stable_harness(wd, name="h_wal"):
     """build the harness for the current tree and copy it into the run's scratch directory: other checks
     running in parallel may rebuild .build/impl-* (and delete the old directory) when /repo changes"""
